@@ -131,12 +131,16 @@ def plan_for(prop, tier, seed):
                     continue
                 P.add(Entry("cw_ord_%d_fi" % pi, "charwise", "first", p), *fams)
         if withE:
-            L = 3 if q else 4
+            # quick: L = 2 only (an L = 3 leftmost harness is 5-8 min / 24 GB; the per-state oracle
+            # T2lm/T34lm carries the for-all-haystacks part, E is the guard on the composition)
+            L = 2 if q else 4
             P.add(bw("hard_lm", kind, suffix="_e"), "E:m=lm,L=%d" % L)
-            P.add(bw("hard_lm2", kind, suffix="_e"), "E:m=lm,L=%d" % (2 if q else L))
+            P.add(bw("hard_lm2", kind, suffix="_e"), "E:m=lm,L=%d" % L)
             P.add(cw("w123", kind, suffix="_e"), "E:m=lm,L=%d" % (2 if q else 3))
+            if not q:
+                P.add(bw("hard_lm", kind, suffix="_e3"), "E:m=lm,L=3")
             # concrete prefix + 2 symbolic tail bytes, for every proper prefix shape of interest
-            pres = ["6162"] if q else ["61", "6162", "616263", "6263", "78616263", "6162637861"]
+            pres = ["61"] if q else ["61", "6162", "616263", "6263", "78616263", "6162637861"]
             for pre in pres:
                 P.add(bw("hard_lm", kind, suffix="_p" + pre), "E:m=lm,L=2,pre=" + pre)
             if not q:
